@@ -69,7 +69,9 @@ def route_py(segs):
 class Device(object):
     """A freshly configured simulator: tags per `cfg` (the spec's configuration record)."""
 
-    def __init__(self, cfg, attribute_class=Attribute, pers=None):
+    def __init__(self, cfg, attribute_class=Attribute, pers=None, defer=False):
+        """defer=True: the CIP objects and tags are NOT set up yet -- the first request does it (logix.process(..., tags=self.tags)),
+        as in a freshly started simulator"""
         self.cfg = cfg
         device.lookup_reset()
         logix.setup_reset()
@@ -102,6 +104,10 @@ class Device(object):
             class UCMM(ucmm_mod.UCMM):          # as main() does for --route-path / --simple
                 route_path = rp
             kw["UCMM_class"] = UCMM
+        self.names = [bytes(bytearray(tg["name"])).decode("iso-8859-1") for tg in cfg["tags"]]
+        self.cm = None
+        if defer:
+            return
         self.ucmm = logix.setup(tags=tags, **kw)
         self.names = [bytes(bytearray(tg["name"])).decode("iso-8859-1") for tg in cfg["tags"]]
         got = [tuple(device.resolve_tag(n) or ()) for n in self.names]
